@@ -146,6 +146,14 @@ class AddStream(Stream):
         B = build(d["B"], d["batched"])
         try:
             C = A.add(B)
+            # the documented full-matrix view of the result: [[S11, S12], [S21, S22]] (and its determinant)
+            if np.asarray(C.S11).ndim == 2:
+                full = np.vstack([np.hstack([C.S11, C.S12]), np.hstack([C.S21, C.S22])])
+                if not np.array_equal(np.asarray(C.matrix()), full):
+                    raise ValueError("matrix() is not the block matrix of the result")
+                if full.shape[0] == full.shape[1] and full.shape[0] > 0 \
+                        and not np.isclose(C.det(), np.linalg.det(full), rtol=1e-9, atol=1e-12):
+                    raise ValueError("det() is not the determinant of the block matrix")
             obs = "Obs " + clist(observed_slices(C))
         except Exception:
             obs = "Raised"
